@@ -290,7 +290,7 @@ CHECKS["C02"] = {
     "category": "translation_validation",
     "technique": "TLA+ spec (Taint.tla enter/legal forms, Mem.EntryAllowed): entry shapes compiled against the headers under "
                  "three sandbox ABIs; run-time entry points swept over every address class; TLC judges verdicts and events",
-    "text": "59 shapes by which a raw pointer, raw function pointer, array / std::array of raw pointers, wrapper of another "
+    "text": "65 shapes by which a raw pointer, raw function pointer, array / std::array of raw pointers, wrapper of another "
             "sandbox type, mismatching function-pointer type or ill-formed callback signature could enter a wrapper, a "
             "sandbox call or a registration (on 32-bit-offset, 16-bit-offset and host-width integer pointer ABIs) must all be "
             "rejected by the compiler, 23 permitted controls are recorded; assign_raw_pointer (tainted and tainted_volatile) "
@@ -299,3 +299,28 @@ CHECKS["C02"] = {
             "resp. its representation.",
     "note": "Shape family is hand-listed. Trusted: TLC, gen/taint_corpus.py, harness/mem_driver.cpp, vm backend, g++ 12.",
 }
+
+# additions of the later rounds (DESIGN.md sections 6 and 10), appended to the texts above
+ADDENDA = {
+    "C01": "The same rejections are also observed as run-time failures: harness/nocc_driver.cpp (RLBOX_NO_COMPILE_CHECKS without "
+           "exceptions) runs each forbidden use in a forked child, which must end with SIGABRT (Abort.tla).",
+    "C02": "Raw pointers of two and more levels, to void and to const are among the entry programs; the rejections are also observed "
+           "as run-time failures in the RLBOX_NO_COMPILE_CHECKS configuration without exceptions (nocc_driver, Abort.tla).",
+    "C04": "Pointer cells of one and of two live sandboxes compared with == / != are equal iff they designate the same object (cellcmp).",
+    "C05": "One more build runs the sweeps on a 1 KiB sandbox in the middle of a host page (leaving the sandbox is not leaving the page).",
+    "C13": "Every event also carries the representation each owner would hand to the sandbox: an owner that reports is_unregistered() "
+           "hands out 0.",
+    "C15": "Random owner histories include owners destroyed by stack unwinding and the sandbox object destroyed and created again under "
+           "live owners; every owner history runs in a second incarnation of the sandbox object, after get_total_memory() was asked in "
+           "the first.",
+    "C16": "The operand of a refused (single) update in sandbox memory is read back and must still hold its old value.",
+    "C17": "For a 2-D and a 3-D shape the size and position of what the first index designates (a row) are judged as well (RowAllowed).",
+    "C18": "With the library's own locks (lock_driver on the vm, no-op and dylib backends) sandboxes created - and invoked once with a "
+           "callback - by the main thread are handed to other threads, used there (example-based lookups, invocations with callbacks) "
+           "and destroyed (handoff events); RegistryScope.tla proves the process-wide list design and refutes a per-thread list.",
+    "C19": "Every callback body of every tree creates and destroys one more sandbox of the backend before it goes on (a step of the "
+           "Model and of the Contract).",
+    "C12": "Every callback body of every tree creates and destroys one more sandbox of the backend before it goes on.",
+}
+for _k, _v in ADDENDA.items():
+    CHECKS[_k]["text"] += " " + _v
